@@ -1,7 +1,7 @@
 (** C01 — the upstream gets a bearer token only for a valid session, and it is that session's. *)
 From Coq Require Import ZArith NArith Bool List.
 From WW Require Import Gen.Params Base.AMap Model.SessionTime Model.Machine Model.Entry
-     Proofs.MachineP Proofs.MachineLifeP Proofs.MachineFaultP.
+     Proofs.MachineP Proofs.MachineLifeP Proofs.MachineFaultP Proofs.MachineModeP.
 Import ListNotations.
 Open Scope Z_scope.
 
@@ -71,6 +71,18 @@ Theorem c01_refresh_keeps_identity : forall c cur a r secs now,
   sd_acr (refreshed_data c cur a r secs now) = sd_acr cur.
 Proof. exact refreshed_data_same_life. Qed.
 Print Assumptions c01_refresh_keeps_identity.
+
+(** The refresh path: the conditional write of the refreshing request stores, under the cookie's key and data key,
+    exactly the record it then answers with - so the token it forwards is the one now in the store. *)
+Theorem c01_refresh_path_token_is_stored : forall c w t old new tok start e,
+  t_phase t = PUpdSet old new tok start -> t_cancel t = false ->
+  store_get w (cookie_key (t_cookie t)) = Some e ->
+  let w' := fst (fst (step c w t FNone)) in let t' := snd (fst (step c w t FNone)) in
+  alookup (cookie_key (t_cookie t)) (w_store w') =
+    Some {| e_dek := cookie_dek (t_cookie t); e_data := new; e_exp := e_exp e |} /\
+  t_phase t' = to_unlock c t old tok (ROk new) (w_clock w).
+Proof. exact refresh_write_stores_answer. Qed.
+Print Assumptions c01_refresh_path_token_is_stored.
 
 Example c01_nonvacuous :
   let s := run_events (mk_config true false false None (7200 * second) 2 0 true false true true true) (init_state 3600)
